@@ -70,7 +70,7 @@ def infoLoop : (fuel : Nat) → (endRaw : String) → (acc : List InfoElem) → 
           (match readText t rest with | .ok (s, r) => infoLoop fuel endRaw (acc ++ [.badNamespace s]) r | .error e => .error e)
         else if t.lname == "session-id" then
           (match readText t rest with
-           | .ok (s, r) => (match parseU32 s with
+           | .ok (s, r) => (match parseU32 (trim s) with
               | some n => infoLoop fuel endRaw (acc ++ [.sessionId (if n == 0 then none else some n)]) r
               | none => .error .parse)
            | .error e => .error e)
@@ -176,10 +176,18 @@ structure RCfg where
   loadOkGuard : Bool
   /-- from_xml / PartialReply::read_xml skip an XML declaration (pinned: rejected) -/
   declArm : Bool
+  /-- token-valued leaves (capability, session-id, load-error-count) are trimmed before parsing
+      (pinned: parsed raw) -/
+  trimTokens : Bool
+  /-- `Capabilities::read_xml` has a Comment arm (pinned: none) -/
+  capsComment : Bool
   deriving DecidableEq, Repr, Inhabited
 
-def RCfg.pinned : RCfg := { loadOkGuard := false, declArm := false }
-def RCfg.fixed : RCfg := { loadOkGuard := true, declArm := true }
+def RCfg.pinned : RCfg := { loadOkGuard := false, declArm := false, trimTokens := false, capsComment := false }
+def RCfg.fixed : RCfg := { loadOkGuard := true, declArm := true, trimTokens := true, capsComment := true }
+
+/-- the text a token-valued leaf is parsed from -/
+def RCfg.tok (c : RCfg) (s : String) : String := if c.trimTokens then trim s else s
 
 /-- `EmptyReply::read_xml` -/
 def emptyLoop : (fuel : Nat) → (endRaw : String) → (this : Bool) → (errors : List RpcError) → List Ev → Except Err (Body × List Ev)
@@ -275,7 +283,7 @@ def loadInner (c : RCfg) : (fuel : Nat) → (endRaw : String) → LoadSt → Lis
          | .error e => .error e)
       else if t.is BASE "load-error-count" && !st.this then
         (match readText t rest with
-         | .ok (s, r) => (match parseUsize s with
+         | .ok (s, r) => (match parseUsize (c.tok s) with
             | some n => loadInner c fuel endRaw { st with count := some n } r
             | none => .error .other)
          | .error e => .error e)
